@@ -185,7 +185,13 @@ fn e2e_scenario(seed: u64, i: usize, tier: Tier) -> Outcome {
     check_bookkeeping(&w, &a, &run, &tcfg, &mut o, &site, &replay);
     let mut probed = std::collections::BTreeSet::new();
     let mut max_largest = 0u8;
-    for round in &run.rounds {
+    for (ri, round) in run.rounds.iter().enumerate() {
+        // "probed" is what went out on the wire (ground truth), not only what the round lists
+        for g in &a.rounds[ri].groups {
+            if let Some(wid) = g.wire {
+                probed.insert(w.wires[wid].ttl);
+            }
+        }
         for p in &round.probes {
             let t = match p {
                 ProbeStatus::Awaited(a) => a.ttl.0,
